@@ -6,7 +6,7 @@ cd /verif
 OUT=seeded/RESULTS.$T.txt
 [ $# -eq 0 ] && set -- $(ls seeded | grep -v RESULTS)
 for s in "$@"; do
-  d=seeded/$s
+  d=/verif/seeded/$s
   [ -f $d/patch.diff ] || continue
   prop=$(python3 -c "import json;print(json.load(open('$d/meta.json'))['property'])")
   also=$(python3 -c "import json;print(' '.join(json.load(open('$d/meta.json')).get('also',[])))")
